@@ -368,6 +368,58 @@ def coverage_level1(ck, res):
     ck.add_samples([{"svcs": c["svcs"], "ops": c["ops"][:6], "obs": (c.get("obs") or [])[:6]} for c in cases[:3]])
 
 
+# ---------------------------------------------------------------------------------------------- critical sections
+def run_regions(ck, pid):
+    """translate/gen_c01_regions: the Lock/Unlock regions of genericInsertService.go must be the ones the atomic steps of
+    model/Ingest.v stand for (model/IngestRegions.v regions_model / outside_model, theorem model_steps_are_the_critical_sections)"""
+    import vcheck
+    here = os.path.dirname(os.path.dirname(__file__))
+    env = dict(os.environ, VERIF_REPO=vcheck.REPO)
+    env.update({k: v for k, v in vcheck.go_env().items() if k in ("GOCACHE",)})
+    genf = os.path.join(here, "coq", "gen", "GenC01Regions.v")
+    with vcheck.Lock("c01gen"):
+        rc, out = vcheck.sh([os.path.join(here, "translate", "gen_c01_regions")], env=env, timeout=300)
+        gen = open(genf).read() if rc == 0 and os.path.exists(genf) else ""
+    ck.checker_cmds.append("translate/gen_c01_regions")
+    ck.obligation("translator gen_c01_regions ran on %s/writer/service/genericInsertService.go" % vcheck.REPO, rc == 0 and bool(gen), out[-1500:])
+    if rc != 0 or not gen:
+        return
+    okm, o = ck.coq_make(["model/IngestRegions.vo"])
+    if not okm:
+        ck.obligation("model/IngestRegions.v compiles", False, o[-1500:])
+        return
+    # the generated definitions are inlined (coq/gen is shared by concurrent runs on different trees)
+    txt = (gen + "\nDefinition RD := Eval vm_compute in region_diff gen_regions.\nPrint RD.\n"
+           "Definition OD := Eval vm_compute in outside_diff gen_outside.\nPrint OD.\n"
+           "Definition ROK := Eval vm_compute in regions_ok gen_regions gen_outside.\nPrint ROK.\n"
+           "Definition NRG := Eval vm_compute in (List.length gen_regions, List.length gen_outside).\nPrint NRG.\n")
+    rc, o = ck.coq_eval("%s_regions" % pid, txt)
+    flat = " ".join(o.split())
+    if rc != 0:
+        ck.obligation("generated critical sections evaluated inside Coq", False, o[-1500:])
+        return
+    rd = re.search(r"RD = (\[.*?\]) : list string", flat)
+    od = re.search(r"OD = (\[.*?\]) : list access", flat)
+    rok = re.search(r"ROK = (true|false)", flat)
+    nrg = re.search(r"NRG = \((\d+), (\d+)\)", flat)
+    same = bool(rd and od and rd.group(1).replace(" ", "") == "[]" and od.group(1).replace(" ", "") == "[]")
+    ck.obligation("the Lock/Unlock regions of InsertServiceV2 and the accesses outside them, regenerated from the source, are the ones the model's atomic steps stand for "
+                  "(gen_regions = regions_model, gen_outside = outside_model)", same,
+                  "regions that differ: %s; unexpected / missing accesses outside a region: %s" % (rd.group(1) if rd else "?", od.group(1) if od else "?"))
+    ck.obligation("regions_ok on the regenerated regions: one region per step that touches shared fields, writes = the step's, nothing shared written outside, swapBuffers leaves no alias",
+                  bool(rok and rok.group(1) == "true"), flat[-600:])
+    if not same or not (rok and rok.group(1) == "true"):
+        m = re.search(r"Definition gen_regions.*", gen, re.S)
+        ck.violation({"property": pid, "kind": "a critical section of genericInsertService.go is not the atomic step the model takes it for",
+                      "explanation": "model/Ingest.v treats each mutex hold as one step (Request, PlanFlush, swapBuffers, the ctx.Done case of Run); the regenerated regions differ from "
+                                     "model/IngestRegions.v regions_model / outside_model: a field of the batch is touched outside the mutex, or a region keeps an alias of what it hands out",
+                      "regions_that_differ": rd.group(1) if rd else None, "outside_accesses_that_differ": od.group(1) if od else None,
+                      "regions_ok": rok.group(1) if rok else None, "generated": (m.group(0) if m else gen)[:6000],
+                      "replay": "translate/gen_c01_regions; diff coq/gen/GenC01Regions.v against regions_model in coq/model/IngestRegions.v"}, no_input=True)
+    if nrg:
+        ck.extra.setdefault("input_distribution", {})["critical_sections"] = {"regions": int(nrg.group(1)), "accesses_outside_regions": int(nrg.group(2))}
+
+
 # ---------------------------------------------------------------------------------------------- level 2 (HTTP handlers)
 L2KINDS = ["series", "samples", "tags", "spans", "profile"]
 # errTexts of harness/cmd/ingest/main.go (field "e" of a failing ret)
@@ -430,10 +482,20 @@ def case2_to_coq(c, wps=1):
         if o["t"] == "http":
             hnum.setdefault(o.get("h", 0), len(hnum))
     obs = []
+    confs = []
     for evs in (c.get("obs") or []):
         l = []
+        cf = {}
+        for e in (evs or []):
+            if e["t"] == "conf":
+                # ConfirmSeries entered the key of a series row into the announcement cache (wrapper around controller.FPCache)
+                h = e.get("h", 0)
+                cf.setdefault(hnum.get(h, 999) if h >= 0 else 999, []).extend(e.get("rids") or [])
+        confs.append(coq_list(["(%d, %s)" % (h, coq_list(["%d%%N" % (r if r >= 0 else 999999999) for r in sorted(rs)])) for h, rs in sorted(cf.items())]))
         for e in (evs or []):
             t = e["t"]
+            if t == "conf":
+                continue
             if t in ("sreq", "sres"):
                 # seen by the wrapper around the services: which sub-request, which attempt, how its promise ended
                 h, i = e.get("h", 0), e.get("i", 0)
@@ -478,8 +540,8 @@ def case2_to_coq(c, wps=1):
                     own.append("(%d%%N, %d%%N, KSub %d %d)" % (run[0], run[1], hn, i))
                 i += 1
         hn += 1
-    return ("{| d_id := (%d)%%Z; d_cfg := %s; d_attempts := %d%%N; d_dials := %s; d_drained := %s; d_handlers := %d;\n     d_ops := %s;\n     d_obs := %s;\n     d_own := %s |}"
-            % (c["id"], cfg, c.get("attempts", 1), dials, b(c.get("drained")), len(c.get("reqs") or []), coq_list(ops), coq_list(obs), coq_list(own)))
+    return ("{| d_id := (%d)%%Z; d_cfg := %s; d_attempts := %d%%N; d_dials := %s; d_drained := %s; d_handlers := %d;\n     d_ops := %s;\n     d_obs := %s;\n     d_own := %s;\n     d_conf := %s |}"
+            % (c["id"], cfg, c.get("attempts", 1), dials, b(c.get("drained")), len(c.get("reqs") or []), coq_list(ops), coq_list(obs), coq_list(own), coq_list(confs)))
 
 
 def eval_cases2(ck, name, cases):
